@@ -977,6 +977,8 @@ where
     }
     lcs_w.refresh();
     last_lcw_refresh_index += 1;
+    #[cfg(adlt_verif)]
+    crate::utils::verif_sched::point("lc_before_final_flush");
 
     // if we have buffered msgs we have to output them now:
     for m in buffered_msgs.into_iter() {
@@ -990,6 +992,8 @@ where
         }
     }
 
+    #[cfg(adlt_verif)]
+    crate::utils::verif_sched::point("lc_before_final_refresh");
     // todo check for rule #2 and do the final update
     check_regular_refresh(
         last_msg_index,
